@@ -363,6 +363,82 @@ func (e *Evaluator) posIVs(q query.Q, d *Doc, a *AtomIVs) {
 	}
 }
 
+// RegexpMatchAt reports whether some regexp atom of q that is not under a negation
+// matches exactly text[iv.S:iv.E] when the match is required to START at iv.S (with
+// the whole text as context for ^, $ and \b). FindAll only yields the engine's
+// successive non-overlapping matches; a literal-like regexp that zoekt evaluates as
+// a substring, or the overlap resolution between several atoms, may legitimately
+// report another occurrence, which is still "a match of that atom at that position".
+func (e *Evaluator) RegexpMatchAt(q query.Q, d *Doc, iv IV, inName bool) bool {
+	text := d.Text()
+	if inName {
+		text = d.Name
+	}
+	if iv.S < 0 || iv.E > len(text) || iv.S > iv.E || !utf8.ValidString(text[:iv.S]) {
+		return false
+	}
+	found := false
+	var walk func(q query.Q)
+	walk = func(q query.Q) {
+		if found {
+			return
+		}
+		switch s := q.(type) {
+		case *query.And:
+			for _, c := range s.Children {
+				walk(c)
+			}
+		case *query.Or:
+			for _, c := range s.Children {
+				walk(c)
+			}
+		case *query.Boost:
+			walk(s.Child)
+		case *query.Type:
+			if s.Type != query.TypeRepo {
+				walk(s.Child)
+			}
+		case *query.Regexp:
+			name, content := s.FileName, s.Content
+			if name == content {
+				name, content = true, true
+			}
+			if (inName && !name) || (!inName && !content) {
+				return
+			}
+			e.mu.Lock()
+			src, ok := e.Src[s.Regexp]
+			e.mu.Unlock()
+			if !ok {
+				src = s.Regexp.String()
+			}
+			// pin the start: skip exactly the runes before iv.S, then the atom as group 1
+			k := utf8.RuneCountInString(text[:iv.S])
+			skip := ""
+			if k >= 1000 {
+				skip = fmt.Sprintf("(?:.{1000}){%d}", k/1000)
+				if k/1000 > 1000 {
+					return // beyond what the engine accepts; not needed for these corpora
+				}
+			}
+			skip += fmt.Sprintf(".{%d}", k%1000)
+			flags := "(?m)"
+			if !s.CaseSensitive {
+				flags = "(?m)(?i)"
+			}
+			pinned, err := regexp.Compile(`\A(?s:` + skip + `)(` + flags + src + `)`)
+			if err != nil {
+				return
+			}
+			if m := pinned.FindStringSubmatchIndex(text); m != nil && m[2] == iv.S && m[3] == iv.E {
+				found = true
+			}
+		}
+	}
+	walk(q)
+	return found
+}
+
 // GreedyNonOverlapping keeps the leftmost occurrences that do not overlap an already
 // kept one (longest first at equal start).
 func GreedyNonOverlapping(ivs []IV) []IV {
